@@ -20,7 +20,9 @@
 (***************************************************************************)
 EXTENDS Integers, Sequences, FiniteSets, TLC, Ops
 
-CONSTANTS Names, MaxOps, Cap, RingSize, WatchFile
+CONSTANTS Names, MaxOps, Cap, RingSize, WatchFile,
+          STRICT_REMOVE    \* the ghost expects a Remove from the end of the D/x watch unless D itself reports the removal (the
+                           \* property, C09); FALSE: it follows the code, which stays silent whenever D is listed (known finding)
 
 VARIABLES present,     \* entry names that exist in D
           fmark,       \* the entry name whose file carries the kernel mark of the watch on D/x ("" none, "*" moved out of D)
@@ -68,6 +70,7 @@ Account(q, rs, w, e) ==
                                  house == HasBit(r.m, IN_IGNORED) \/ InotifyOpOf(r.m) = 0
                                  \* a DELETE_SELF of D/x while D is listed is reported by D's IN_DELETE only
                                  dup == r.wd = 2 /\ HasBit(r.m, IN_DELETE_SELF)
+                                        /\ (~STRICT_REMOVE \/ \E k \in 1..Len(rs) : rs[k].wd = 1 /\ HasBit(rs[k].m, IN_DELETE))
                                  \* records of the D/x watch behind its own end are skipped by the reader (the watch is gone by then)
                                  late == r.wd = 2 /\ ee
                                  ends == r.wd = 2 /\ (HasBit(r.m, IN_MOVE_SELF) \/ HasBit(r.m, IN_DELETE_SELF))
